@@ -225,6 +225,24 @@ def redirect_spellings(ctx, rule):
             ctx.undecided(rule, "%s: %s" % (name, e))
 
 
+def _escape_decoding_of_query(ctx, t):
+    """the query itself, or PATTERN.sub(callback, <such a term>) where PATTERN matches %HH escapes only (the escaped spelling of a character is the character)"""
+    if t == ("param", "query"):
+        return True
+    op = F.regex_op(t)
+    if op is None or op[1] != "sub" or len(op[2]) != 2 or op[2][0][0] != "funcref":
+        return False
+    mod, _, name = op[0].rpartition(".")
+    try:
+        rx = ctx.repo.const(ctx.repo.mod(mod), name)
+        A = Algebra()
+        if A.subset(A.regex(rx.pattern, rx.flags, "fullmatch"), A.regex(r"%[0-9A-Fa-f]{2}", 0, "fullmatch")) is not None:
+            return False
+    except (Unknown, AnalysisError, Unsupported):
+        return False
+    return _escape_decoding_of_query(ctx, P.strip_inl(op[2][1]))
+
+
 def repair_function(ctx, rule):
     """fix_common_query_mistakes: every path substitutes MISTAKES_RE by '&', or returns early under a substring guard
     that every string matched by MISTAKES_RE contains (language inclusion), so the shortcut cannot skip a repair."""
@@ -239,7 +257,8 @@ def repair_function(ctx, rule):
     sub = F.is_regex_sub("ural.utils.MISTAKES_RE", "&")
     n = 0
     for r in rets:
-        if sub(r.term) and (r.term[2][-1] if r.term[0] == "call" else r.term[3][-1]) == ("param", "query"):
+        subject = P.strip_inl(r.term[2][-1] if r.term[0] == "call" else r.term[3][-1]) if sub(r.term) else None
+        if subject is not None and _escape_decoding_of_query(ctx, subject):
             n += 1
             continue
         if r.term == ("param", "query"):
@@ -417,9 +436,11 @@ def steps_and_order(ctx, rule, n, spec):
         ctx.ob(rule, fn + "/host/helper-forwards-options", kw.get("normalize_amp") == ("param", "normalize_amp") and kw.get("strip_irrelevant_subdomains") == ("param", "strip_irrelevant_subdomains"),
                "normalize_url does not hand normalize_amp / strip_irrelevant_subdomains to the host helper as they were given", site)
     ctx.ob(rule, fn + "/host/idna", not F.unguarded_paths(h, U.is_attr("hostname"), F.is_call(U.U + "decode_punycode_hostname")), "normalize_url does not punycode-decode the host", site)
-    for dn in F.find_nodes(h, F.is_call(U.U + "decode_punycode_hostname"), data_only=True):
-        ctx.ob(rule, fn + "/host/amp-prefix-before-idna", bool(F.find_nodes(dn[2][0], NM.is_host_helper, data_only=True)) if dn[2] else False,
-               "normalize_url decodes punycode before stripping a leading 'amp-': the prefix hides the 'xn--' header of its label, so amp-xn--caf-dma.fr and xn--caf-dma.fr get two normalized forms", site, witness="http://amp-xn--caf-dma.fr/")
+    dns = F.find_nodes(h, F.is_call(U.U + "decode_punycode_hostname"), data_only=True)
+    ctx.ob(rule, fn + "/host/amp-prefix-before-idna", any(dn[2] and F.find_nodes(dn[2][0], NM.is_host_helper, data_only=True) for dn in dns),
+           "normalize_url never decodes punycode after stripping a leading 'amp-': the prefix hides the 'xn--' header of its label, so amp-xn--caf-dma.fr and xn--caf-dma.fr get two normalized forms", site, witness="http://amp-xn--caf-dma.fr/")
+    ctx.ob(rule, fn + "/host/idna-before-amp-prefix-too", any(F.find_nodes(hc, F.is_call(U.U + "decode_punycode_hostname"), data_only=True) for hc in F.find_nodes(h, NM.is_host_helper, data_only=True)),
+           "normalize_url never decodes punycode before stripping a leading 'amp-': the prefix can be the start of a punycode label, so xn--amp--epa.com and its unicode spelling amp-\u00e9.com get two normalized forms", site, witness="http://xn--amp--epa.com/")
     NM.rule_host_helper(ctx, rule + "h", spec["subdomain_labels"], spec["subdomain_labels_amp"])
     ctx.ob(rule, fn + "/netloc/lower", "lower" in n.netloc_methods or not F.unguarded_paths(h, U.is_attr("hostname"), NM.is_lower), "normalize_url does not lower-case the netloc", site, witness="http://LeMonde.FR")
     # path
